@@ -247,8 +247,12 @@ def judgeExtra2 (hNew hOld : HCtx) (op res : Array String) (dump : Option St) : 
         -- 2^-40 of the extent, 2^-16 for f32) with a vertex that already existed
         let ext := s.extent [pa, pb]
         let eps := ext / 2 ^ (if f32 then 16 else 40)
-        let nearVertex := ctor.any fun c => (List.range s.nV).any fun i =>
-          decide (((s.P i).x - c.x).natAbs ≤ eps.natAbs) && decide (((s.P i).y - c.y).natAbs ≤ eps.natAbs)
+        let close := fun (a c : Pt) => decide ((a.x - c.x).natAbs ≤ eps.natAbs) && decide ((a.y - c.y).natAbs ≤ eps.natAbs)
+        -- … or two computed split positions coincide within rounding with each other, or the
+        -- triangulation already contains two vertices that close (repeated application)
+        let nearVertex := (ctor.any fun c => (List.range s.nV).any fun i => close (s.P i) c) ||
+          ((List.range ctor.length).any fun i => (List.range i).any fun j => close (ctor.getD i ⟨0,0⟩) (ctor.getD j ⟨0,0⟩)) ||
+          ((List.range s.nV).any fun i => (List.range i).any fun j => close (s.P i) (s.P j))
         let nv := if nearVertex then " nearVertex=1" else " nearVertex=0"
         let f1 := chk (oldVerticesKept s d) "C13" "split-changed-existing-vertex" (fun _ => "")
         let f2 := chk (newIdx.all fun i => ctor.contains (d.P i) && d.data.getD i 0 == 777000) "C13"
@@ -268,7 +272,7 @@ def judgeExtra2 (hNew hOld : HCtx) (op res : Array String) (dump : Option St) : 
         let hf := { hOld with floatVerts := hOld.floatVerts || !newIdx.isEmpty }
         let sf := checkState hf d "C13"
         ({ hNew with abs := a', cur := d, lastLoc := none, tainted := !sf.isEmpty, floatVerts := hf.floatVerts },
-          ((f1 ++ f2 ++ f3 ++ f4 ++ f5 ++ f6 ++ f7).map fun f => { f with detail := f.detail ++ nv }) ++ sf)
+          ((f1 ++ f2 ++ f3 ++ f4 ++ f5 ++ f6 ++ f7 ++ sf).map fun f => { f with detail := f.detail ++ nv }))
       | _, _ => (hNew, [⟨"INTERNAL", "protocol", s!"consplit: {res.toList}"⟩])
     | _, _, _ => (hNew, [⟨"INTERNAL", "protocol", "consplit: args/dump"⟩])
   | "refine" =>
